@@ -194,6 +194,10 @@ impl<T> JoinSet<T> {
     pub fn spawn(&mut self, t: Task) { self.tasks.push(t) }
     pub fn len(&self) -> usize { self.tasks.len() }
     pub async fn shutdown(&mut self) { self.tasks.clear(); }
+    // (more of JoinSet's API, for edits that reach for it; aborting is not joining: the tasks may still be running when this returns)
+    pub fn abort_all(&mut self) { self.tasks.clear(); }
+    pub fn detach_all(&mut self) { self.tasks.clear(); }
+    pub fn is_empty(&self) -> bool { self.tasks.is_empty() }
     // the next task to end: a request handler ends when its connection does (the REAL tail of InboundRequestHandler::start then runs)
     pub async fn join_next(&mut self) -> Option<std::result::Result<(), JoinError>> {
         if self.tasks.is_empty() { return None; }
@@ -710,7 +714,7 @@ def build(ctx):
     if getattr(C, 'tier', 'quick') == 'thorough':
         # the thorough tier explores one step deeper (histories of 5 set operations, 5 connectivity checks)
         for a, b in (('while step < 4 {', 'while step < 5 {'), ('every history of 4 operations', 'every history of 5 operations'),
-                     ('naddr, false, 4, false, false);', 'naddr, false, 5, false);'), ('every run of 4 connectivity checks', 'every run of 5 connectivity checks')):
+                     ('naddr, false, 4, false, false, None, false);', 'naddr, false, 5, false, false, None, false);'), ('every run of 4 connectivity checks', 'every run of 5 connectivity checks')):
             assert h.count(a) == 1, a
             h = h.replace(a, b)
     t += h
